@@ -236,6 +236,7 @@ pub fn run(rep: &Report) {
     sweep(rep, 64, if t { 1500 } else { 40 }, false, rep.seed ^ 0x70);
     // string instructions interleaved with the instructions that set them up (DF, CX, SI/DI, segment loads), in
     // lock-step with the reference on one machine
+    crate::insplane::mixed_history(rep, if t { 40_000 } else { 500 }, 60, rep.seed ^ 0x147, "C07 among all instruction families", "str", &|i| matches!(i, Ins::Str(..)));
     crate::insplane::history_plane(rep, if t { 40_000 } else { 600 }, 60, rep.seed ^ 0x47, false, "C07 lock-step history", "str", &|rng| {
         match rng.below(10) {
             0..=5 => {
